@@ -46,6 +46,9 @@ def gen_addr(R, n, want_range, allow_zero, marks):
     if not want_range or R.random() < 0.45:
         return one() if R.random() < 0.85 else ''
     a, b = one(), one()
+    if R.random() < 0.08:
+        # more than two addresses: the last two count (each ';' on the way still moves the current line)
+        return one() + R.choice([',', ';']) + a + R.choice([',', ',', ';']) + b
     return a + R.choice([',', ',', ';']) + b
 
 
